@@ -1,14 +1,14 @@
 SPECIFICATION Spec
 CONSTANTS
   Names = {"n1", "n2"}
-  MaxCreates = 6
+  MaxCreates = 5
   Slots = {"blocks", "arrays", "mtags", "tags", "features"}
   LinkSlotsOn = {}
   OneSlotsOn = {}
   Acts = {"Create", "CreateBad"}
   MaxLife = 0
   MaxDims = 0
-  MaxSteps = 7
+  MaxSteps = 6
   MaxGen = 0
   EmitActs = {"CreateBad", "Create"}
   EmitRes = "reject"
